@@ -58,6 +58,11 @@ type scope struct {
 	// closer is the id of the goroutine that is running (or has run) Close
 	closer atomic.Uint64
 
+	// cascaded is set once the Close of an ancestor (or of the provider) has taken the scope
+	// over: its context watcher then leaves the closing to that Close, whose caller receives
+	// the disposal errors
+	cascaded atomic.Bool
+
 	// closed is closed once Close has finished disposing everything
 	closed chan struct{}
 }
@@ -252,6 +257,9 @@ func (s *scope) CreateScope(ctx context.Context) (Scope, error) {
 	// Auto-close on context cancellation
 	go func() {
 		<-ctx.Done()
+		if child.cascaded.Load() {
+			return
+		}
 		if err := child.Close(); err != nil {
 			// Context cancellation cleanup errors are expected during shutdown
 			// and cannot be meaningfully handled, so we ignore them
@@ -317,6 +325,22 @@ func (s *scope) closeAndWait() error {
 
 	<-s.closed
 	return err
+}
+
+// markCascaded hands the scope and its descendants over to the Close of an ancestor.
+func (s *scope) markCascaded() {
+	s.cascaded.Store(true)
+
+	s.childrenMu.Lock()
+	children := make([]*scope, 0, len(s.children))
+	for child := range s.children {
+		children = append(children, child)
+	}
+	s.childrenMu.Unlock()
+
+	for _, child := range children {
+		child.markCascaded()
+	}
 }
 
 // disposeInstances closes the scope's disposable instances in reverse order of creation.
@@ -390,6 +414,12 @@ func (s *scope) Close() error {
 	s.cascade = children
 	s.childrenMu.Unlock()
 	verifYield("scope.Close:children-detached")
+
+	// Closing one descendant may cancel the context of another (a context derived from a
+	// sibling's): its watcher would close it concurrently and drop the disposal errors
+	for _, child := range children {
+		child.markCascaded()
+	}
 
 	for _, child := range children {
 		if err := child.closeAndWait(); err != nil {
